@@ -12,7 +12,7 @@ import z3
 from symnp import Engine, Rebinder, SV, SB, SIdx, SymArray, sym_array, to_obj, _raw, arr1
 from symnp import ob as O
 from symnp.explore import Out
-from vf.common import Harness, snap, stubs, RngStub, cached_options, LoggerStub, TargetFault, col
+from vf.common import Harness, snap, stubs, RngStub, cached_options, LoggerStub, TargetFault, FaultSite, col
 
 import pybads.bads.bads as badsmod
 import pybads.function_logger.function_logger as flmod
@@ -34,6 +34,7 @@ class HIM(Harness):
         D, npts, level0 = p["D"], p.get("npts", 2), p.get("level0", 0)
         Bud, nfs0 = p.get("B", 100), p.get("nfs", 10)
         cons, fault = p.get("cons"), p.get("fault", False)
+        fsite = FaultSite(p.get("fault_kind"))
         user = {"max_fun_evals": Bud, "noise_final_samples": nfs0}
         if level0 == 1:
             user["uncertainty_handling"] = True
@@ -61,7 +62,7 @@ class HIM(Harness):
             rng.draws.append(("target_call",))     # a noisy target draws its noise from the global generator
             if fault and eng.choose("fault"):
                 calls.append(None)
-                raise TargetFault("target failed")
+                fsite.fire("target failed")
             y = eng.fresh_real("y")
             calls.append((snap(np.asarray(_raw(x))), y))
             if level0 == 2:
@@ -118,7 +119,9 @@ class HIM(Harness):
         exc = None
         try:
             self_._init_optimization_()
-        except TargetFault as e:
+        except Exception as e:
+            if not fsite.raised:
+                raise
             exc = e
         fl = self_.function_logger
         n_ok = len([c for c in calls if c is not None])
@@ -126,7 +129,7 @@ class HIM(Harness):
         out.tag = dict(calls=len(calls), exc=bool(exc), level=int(lvl1), Xn=int(fl.Xn))
         if fault:
             faulted = [i for i, c in enumerate(calls) if c is None]
-            out.ob("fault_escapes_unchanged", (exc is not None) == bool(faulted))
+            out.ob("fault_escapes_unchanged", (exc is not None) == bool(faulted) and fsite.escaped(exc))
             out.ob("no_call_after_fault", (not faulted) or faulted[0] == len(calls) - 1)
             out.ob("func_count_counts_valid_calls_only", fl.func_count == n_ok)
         if exc is not None:
